@@ -318,6 +318,11 @@ def run(ctx):
     else:
         core.run_sharded(ctx, __name__, 'shard', getattr(ctx, 'shards_override', None) or 16, (10000, 1))
         ctx.exhaustive['small-grammar'] = True
+        with ctx.timed('atheris'):
+            from hplverif import fuzz
+
+            fuzz.tape_campaigns(ctx, 'C08', 8, 60000)
+
 
 
 def extra_evidence(ctx):
